@@ -19,12 +19,13 @@ type Obligation struct {
 	Props   []string
 	Kind    string // ensures, requires, inv.init, inv.keep, assert, safety, lemma, cover, monitor
 	Fn      string
-	NAssert int    // number of assertions of the unit's context that are premises
+	NAssert int      // number of assertions of the unit's context that are premises
 	Extra   []string // extra premises (skolem definitions)
-	Guard   string // path condition
+	Guard   string   // path condition
 	Goal    string
 	Text    string // human-readable source of the goal
 	Cover   bool   // expects sat
+	Group   string // assumption group (see Clause.Group)
 	Unit    *FnVerifier
 	Pos     string
 
@@ -37,50 +38,50 @@ type Obligation struct {
 }
 
 type FnVerifier struct {
-	eng        *Engine
-	smt        *SMT
-	fn         *ssa.Function
-	fc         *FuncContract
-	reg        *heapReg
-	mapTypes   map[string]*types.Map
-	epochAlloc map[int]string
-	nEpoch     int
-	obls       []*Obligation
-	entry      *State // pre-state (for old())
-	top        *Frame
-	errs       []string
-	havocked   []string // callees treated as havoc-all
-	inlined    map[string]bool
-	usedExt    map[string]string
+	eng           *Engine
+	smt           *SMT
+	fn            *ssa.Function
+	fc            *FuncContract
+	reg           *heapReg
+	mapTypes      map[string]*types.Map
+	epochAlloc    map[int]string
+	nEpoch        int
+	obls          []*Obligation
+	entry         *State // pre-state (for old())
+	top           *Frame
+	errs          []string
+	havocked      []string // callees treated as havoc-all
+	inlined       map[string]bool
+	usedExt       map[string]string
 	usedContracts map[string]bool
-	typeTags   map[string]int
-	oblSeen    map[string]int
-	siteCount  map[string]int
-	lockBase   *State // state at first Lock (old() for atomic functions)
-	heldKeys   map[string]bool
-	guards     map[string]string  // heap key -> held key
-	guardInfo  map[string]KeyInfo
-	assertHits map[string]int
-	nIter      int
-	lastNow    string
-	isLemma    string
-	sentinelKeys map[string]string
+	typeTags      map[string]int
+	oblSeen       map[string]int
+	siteCount     map[string]int
+	lockBase      *State // state at first Lock (old() for atomic functions)
+	heldKeys      map[string]bool
+	guards        map[string]string // heap key -> held key
+	guardInfo     map[string]KeyInfo
+	assertHits    map[string]int
+	nIter         int
+	lastNow       string
+	isLemma       string
+	sentinelKeys  map[string]string
 }
 
 type Frame struct {
-	v       *FnVerifier
-	fn      *ssa.Function
-	fc      *FuncContract
-	vals    map[ssa.Value]Val
-	prefix  string
-	depth   int
-	outSt   map[*ssa.BasicBlock]*State
-	edges   map[[2]int]string // edge condition (including source reach)
-	loops   map[*ssa.BasicBlock]*loopInfo
-	exits   []exitInfo
-	top     bool
-	params  map[string]Val
-	parent  *Frame
+	v      *FnVerifier
+	fn     *ssa.Function
+	fc     *FuncContract
+	vals   map[ssa.Value]Val
+	prefix string
+	depth  int
+	outSt  map[*ssa.BasicBlock]*State
+	edges  map[[2]int]string // edge condition (including source reach)
+	loops  map[*ssa.BasicBlock]*loopInfo
+	exits  []exitInfo
+	top    bool
+	params map[string]Val
+	parent *Frame
 }
 
 type exitInfo struct {
@@ -554,6 +555,7 @@ func (fr *Frame) enterLoop(b *ssa.BasicBlock, li *loopInfo, st *State) *State {
 		g, extra := env.boolTerm(inv.Expr)
 		o := v.addObl(st, "inv.init", fmt.Sprintf("loop%d.%s", li.ordinal, clLabel(inv, k)), g, inv.Text, pickProps(inv, props), b.Instrs[0].Pos())
 		o.Extra = extra
+		o.Group = inv.Group
 	}
 	// generic iteration: havoc
 	pre := st
@@ -567,6 +569,9 @@ func (fr *Frame) enterLoop(b *ssa.BasicBlock, li *loopInfo, st *State) *State {
 		preTerms[k] = v.heap(pre, k)
 	}
 	allocPre := v.alloc(pre)
+	if mods.All {
+		v.havocked = append(v.havocked, fmt.Sprintf("loop %d of %s (ALL: %s)", li.ordinal, fr.fn.Name(), strings.Join(mods.Why, "; ")))
+	}
 	v.havocKeys(st, mods)
 	if !mods.All {
 		lf := v.eng.loopFrameInfo(li)
@@ -601,9 +606,9 @@ func (fr *Frame) enterLoop(b *ssa.BasicBlock, li *loopInfo, st *State) *State {
 		env := fr.specEnv(st, li)
 		g, extra := env.boolTerm(inv.Expr)
 		for _, e := range extra {
-			v.smt.assert(e)
+			v.smt.assertG(inv.Group, e)
 		}
-		v.smt.assert(implies(st.reach, g))
+		v.smt.assertG(inv.Group, implies(st.reach, g))
 	}
 	return st
 }
@@ -662,6 +667,7 @@ func (fr *Frame) backEdge(p *ssa.BasicBlock, h *ssa.BasicBlock, st *State, cond 
 		g, extra := env.boolTerm(inv.Expr)
 		o := v.addObl(st2, "inv.keep", fmt.Sprintf("loop%d.%s", li.ordinal, clLabel(inv, k)), g, inv.Text, pickProps(inv, fr.propsOf()), h.Instrs[0].Pos())
 		o.Extra = extra
+		o.Group = inv.Group
 	}
 	for phi, val := range saved {
 		fr.vals[phi] = val
@@ -803,7 +809,7 @@ func (fr *Frame) execInstr(st *State, in ssa.Instruction) {
 				fr.vals[x] = Val{Loc: &l}
 				return
 			}
-			fr.vals[x] = Val{Loc: &Loc{key: v.elemKey(arr.Elem()), idx: []string{base.T, idx}, cellT: arr.Elem(), T: arr.Elem()}}
+			fr.vals[x] = Val{Loc: &Loc{key: v.elemKey(arr.Elem()), idx: []string{base.T, "(ix 0 " + idx + ")"}, cellT: arr.Elem(), T: arr.Elem()}}
 		default:
 			v.unsupported("IndexAddr on %s", x.X.Type())
 		}
@@ -990,6 +996,12 @@ func (fr *Frame) execSlice(st *State, x *ssa.Slice) {
 		}
 		// Go keeps the nil-ness of s[0:0] on a nil slice: arr stays 0
 		fr.defVal(x, fmt.Sprintf("(mk-slice (s.arr %s) (+ (s.off %s) %s) (- %s %s) (- %s %s))", s, s, lo, hi, lo, mx, lo))
+		if lo != "0" {
+			// bridge: element d of the sub-slice is element lo+d of the parent (lets facts about s[k] reach s[lo:][d])
+			r := fr.vals[x].T
+			v.smt.assert(fmt.Sprintf("(forall ((d Int)) (! (= (ix (s.off %s) d) (ix (s.off %s) (+ %s d))) :pattern ((ix (s.off %s) d))))", r, s, lo, r))
+			v.smt.assert(fmt.Sprintf("(forall ((c Int)) (! (=> (<= %s c) (= (ix (s.off %s) c) (ix (s.off %s) (- c %s)))) :pattern ((ix (s.off %s) c))))", lo, s, r, lo, s))
+		}
 	case *types.Pointer:
 		arr, ok := u.Elem().Underlying().(*types.Array)
 		if !ok {
